@@ -9,3 +9,7 @@ import ZnVerif.Ops.C12
 import ZnVerif.Properties.C07
 import ZnVerif.Properties.C08
 import ZnVerif.Properties.C09
+import ZnVerif.Properties.C17
+import ZnVerif.Ops.C17
+import ZnVerif.Properties.C06
+import ZnVerif.Ops.C06
